@@ -128,7 +128,7 @@ def sx_getitem(a, k):
         return a[k]
     if tk is slice:
         if _symslice(k) and not isinstance(a, (C.SymBytes, C.SymBitStr)) and not hasattr(a, '_b'):
-            k = C._cslice(k)
+            k = C._cslice(k, len(a) if _real_isinstance(a, (bytes, bytearray, list, tuple, str)) else None)
         return a[k]
     if tk is C.SymInt:
         if isinstance(a, (list, tuple)) and a and all(type(x) is int for x in a):
